@@ -1,7 +1,7 @@
 PROPS["C16"] = dict(
     jobs=[
-        job("direct", "c16_btdmp", cases={Q: 1500, T: 45000}, mode="direct"),
-        job("facade", "c16_btdmp", cases={Q: 16, T: 480}, mode="facade"),
+        job("direct", "c16_btdmp", cases={Q: 1500, T: 30000}, mode="direct"),
+        job("facade", "c16_btdmp", cases={Q: 16, T: 320}, mode="facade"),
     ],
     rule="direct: random histories (80 ops + final drain) over two real Btdmp objects, each on its own CoreTiming, period fixed "
          "per history in {1,2,3,7,4096,65535,random}: send bursts of unique non-zero ids (incl. fill-to-16 and overflow), flush, "
@@ -20,8 +20,8 @@ PROPS["C16"] = dict(
         T: {"frames": 4000000, "frames_one_word_padded": 80000, "frames_silent": 200000, "empty_irqs": 400000,
             "sends_dropped": 200000, "reached_full": 80000, "flush_nonempty": 80000, "skip_kpos": 2000000, "skip_k0": 200000,
             "skip_at_horizon": 400000, "skip_over_frames": 400000, "horizon_finite": 4000000, "fac_frames": 200000,
-            "fac_empty_irqs": 20000, "fac_sends_dropped": 20000, "histories_facade_idle_loop": 2000,
-            "histories_facade_nop_loop": 2000},
+            "fac_empty_irqs": 20000, "fac_sends_dropped": 20000, "histories_facade_idle_loop": 1500,
+            "histories_facade_nop_loop": 1500},
     },
     ready=True,
     technique="runtime monitoring: lock-step reference model + Skip-vs-Tick twin execution of the real Btdmp/CoreTiming, and the "
